@@ -1,0 +1,382 @@
+/*
+ * Verification facade (cargo feature `verif`): scriptable wrapper around the crate-private
+ * protocol engine (`ProtocolState`).  Virtual clock in milliseconds since the engine's base
+ * timestamp; every entry point runs under catch_unwind and reports a panic as an outcome.
+ */
+
+use crate::alias::*;
+use crate::client::*;
+use crate::client::config::*;
+use crate::error::GneissResult;
+use crate::mqtt::*;
+use crate::protocol::*;
+use crate::verif::text::*;
+
+use std::collections::VecDeque;
+use std::panic::{catch_unwind, AssertUnwindSafe};
+use std::sync::{Arc, Mutex};
+use std::time::{Duration, Instant};
+
+pub struct Engine {
+    state: ProtocolState,
+    base: Instant,
+    completions: Arc<Mutex<Vec<(u64, String)>>>,
+}
+
+fn parse_u64(token: &str) -> TextResult<u64> {
+    token.parse::<u64>().map_err(|_| format!("bad number {}", token))
+}
+
+fn parse_opt<T: std::str::FromStr>(token: &str) -> TextResult<Option<T>> {
+    if token == "-" { Ok(None) } else { token.parse::<T>().map(Some).map_err(|_| format!("bad number {}", token)) }
+}
+
+fn parse_duration_ms(token: &str) -> TextResult<Duration> {
+    if token == "max" { Ok(Duration::MAX) } else { Ok(Duration::from_millis(parse_u64(token)?)) }
+}
+
+/// Parses connect options:
+/// keepalive(-|n) rejoin(0=PostSuccess|1=Always|2=Never) clientid username password sei rri rpi
+/// recvmax tam maxpkt willdelay up (NOWILL | WILL <publish fields>)
+pub(crate) fn connect_options_from_tokens(tokens: &[&str]) -> TextResult<ConnectOptions> {
+    if tokens.len() < 14 {
+        return Err("connect options: too few tokens".to_string());
+    }
+
+    // reuse the CONNECT parser for the shared fields
+    let mut connect_tokens: Vec<&str> = vec!["CONNECT", "0", "0"];
+    connect_tokens.extend_from_slice(&tokens[2..11]);
+    connect_tokens.push("-");
+    connect_tokens.push("-");
+    connect_tokens.extend_from_slice(&tokens[11..]);
+    let packet = packet_from_tokens(&connect_tokens)?;
+    if let MqttPacket::Connect(connect) = packet {
+        Ok(ConnectOptions {
+            keep_alive_interval_seconds: parse_opt::<u16>(tokens[0])?,
+            rejoin_session_policy: match tokens[1] {
+                "0" => RejoinSessionPolicy::PostSuccess,
+                "1" => RejoinSessionPolicy::Always,
+                "2" => RejoinSessionPolicy::Never,
+                _ => { return Err("bad rejoin policy".to_string()); }
+            },
+            client_id: connect.client_id,
+            username: connect.username,
+            password: connect.password,
+            session_expiry_interval_seconds: connect.session_expiry_interval_seconds,
+            request_response_information: connect.request_response_information,
+            request_problem_information: connect.request_problem_information,
+            receive_maximum: connect.receive_maximum,
+            topic_alias_maximum: connect.topic_alias_maximum,
+            maximum_packet_size_bytes: connect.maximum_packet_size_bytes,
+            will_delay_interval_seconds: connect.will_delay_interval_seconds,
+            will: connect.will,
+            user_properties: connect.user_properties,
+        })
+    } else {
+        Err("connect options: internal".to_string())
+    }
+}
+
+pub(crate) fn offline_policy_from_token(token: &str) -> TextResult<OfflineQueuePolicy> {
+    match token {
+        "0" => Ok(OfflineQueuePolicy::PreserveAll),
+        "1" => Ok(OfflineQueuePolicy::PreserveAcknowledged),
+        "2" => Ok(OfflineQueuePolicy::PreserveQos1PlusPublishes),
+        "3" => Ok(OfflineQueuePolicy::PreserveNothing),
+        _ => Err("bad offline policy".to_string())
+    }
+}
+
+pub(crate) fn resolver_from_token(token: &str) -> TextResult<Option<OutboundAliasResolverFactoryFn>> {
+    if token == "null" {
+        Ok(Some(OutboundAliasResolverFactory::new_null_factory()))
+    } else if token == "manual" {
+        Ok(Some(OutboundAliasResolverFactory::new_manual_factory()))
+    } else if let Some(n) = token.strip_prefix("lru:") {
+        let max = n.parse::<u16>().map_err(|_| "bad lru size".to_string())?;
+        Ok(Some(OutboundAliasResolverFactory::new_lru_factory(max)))
+    } else if token == "default" {
+        Ok(None)
+    } else {
+        Err("bad resolver".to_string())
+    }
+}
+
+fn state_name(state: ProtocolStateType) -> &'static str {
+    match state {
+        ProtocolStateType::Disconnected => "Disconnected",
+        ProtocolStateType::PendingConnack => "PendingConnack",
+        ProtocolStateType::Connected => "Connected",
+        ProtocolStateType::PendingDisconnect => "PendingDisconnect",
+        ProtocolStateType::Halted => "Halted",
+    }
+}
+
+fn panic_message(payload: Box<dyn std::any::Any + Send>) -> String {
+    let message =
+        if let Some(s) = payload.downcast_ref::<&str>() { s.to_string() }
+        else if let Some(s) = payload.downcast_ref::<String>() { s.clone() }
+        else { "unknown".to_string() };
+    message.replace(' ', "_")
+}
+
+fn outcome_of(result: std::thread::Result<GneissResult<()>>) -> String {
+    match result {
+        Ok(Ok(())) => "ok".to_string(),
+        Ok(Err(error)) => format!("err:{}", error_kind(&error)),
+        Err(payload) => format!("panic:{}", panic_message(payload)),
+    }
+}
+
+fn codes_to_text<T: Copy>(codes: &[T], f: fn(T) -> u8) -> String {
+    let items: Vec<String> = codes.iter().map(|c| f(*c).to_string()).collect();
+    format!("[{}]", items.join(";"))
+}
+
+impl Engine {
+
+    /// version(5|311) policy(0..3) drain(0=None|1=OneAtATime) retry(-|n) ping_timeout_ms|max
+    /// resolver(default|null|manual|lru:<n>) <connect options>
+    pub fn new(tokens: &[&str]) -> TextResult<Engine> {
+        if tokens.len() < 7 {
+            return Err("engine config: too few tokens".to_string());
+        }
+
+        let base = Instant::now();
+        let config = ProtocolStateConfig {
+            connect_options: connect_options_from_tokens(&tokens[6..])?,
+            base_timestamp: base,
+            offline_queue_policy: offline_policy_from_token(tokens[1])?,
+            ping_timeout: parse_duration_ms(tokens[4])?,
+            outbound_alias_resolver: resolver_from_token(tokens[5])?.map(|f| f()),
+            protocol_mode: match tokens[0] { "5" => ProtocolMode::Mqtt5, "311" => ProtocolMode::Mqtt311, _ => { return Err("bad version".to_string()); } },
+            post_reconnect_queue_drain_policy: match tokens[2] { "0" => PostReconnectQueueDrainPolicy::None, "1" => PostReconnectQueueDrainPolicy::OneAtATime, _ => { return Err("bad drain policy".to_string()); } },
+            max_interrupted_retries: parse_opt::<u32>(tokens[3])?,
+        };
+
+        Ok(Engine {
+            state: ProtocolState::new(config),
+            base,
+            completions: Arc::new(Mutex::new(Vec::new())),
+        })
+    }
+
+    fn at(&self, ms: u64) -> Instant {
+        self.base + Duration::from_millis(ms)
+    }
+
+    fn drain_completions(&self) -> String {
+        let mut completions = self.completions.lock().unwrap();
+        completions.sort();
+        let items: Vec<String> = completions.iter().map(|(id, r)| format!("{}={}", id, r)).collect();
+        completions.clear();
+        format!("[{}]", items.join(","))
+    }
+
+    fn events_to_text(events: &VecDeque<PacketEvent>) -> String {
+        let items: Vec<String> = events.iter().map(|e| {
+            match e {
+                PacketEvent::Connack(p) => packet_to_text(&MqttPacket::Connack(p.clone())).replace(' ', "|"),
+                PacketEvent::Publish(p) => packet_to_text(&MqttPacket::Publish(p.clone())).replace(' ', "|"),
+                PacketEvent::Disconnect(p) => packet_to_text(&MqttPacket::Disconnect(p.clone())).replace(' ', "|"),
+            }
+        }).collect();
+        format!("[{}]", items.join(";"))
+    }
+
+    fn finish(&self, outcome: String, extra: String) -> String {
+        format!("{} st={} done={}{} {}", outcome, state_name(self.state.state), self.drain_completions(), extra, self.snapshot())
+    }
+
+    /// SUB: timeout(-|ms|max) <packet>; the packet must be PUBLISH, SUBSCRIBE or UNSUBSCRIBE
+    pub fn submit(&mut self, now: u64, tokens: &[&str]) -> TextResult<String> {
+        if tokens.is_empty() { return Err("submit: too few tokens".to_string()); }
+        let ack_timeout = if tokens[0] == "-" { None } else { Some(parse_duration_ms(tokens[0])?) };
+        let packet = packet_from_tokens(&tokens[1..])?;
+        let id = self.state.next_operation_id;
+        let sink = self.completions.clone();
+        let current_time = self.at(now);
+
+        let event =
+            match &packet {
+                MqttPacket::Publish(_) => {
+                    let handler: ResponseHandler<PublishResult> = Box::new(move |result| {
+                        let text = match result {
+                            Ok(PublishResponse::Qos0) => "ok:qos0".to_string(),
+                            Ok(PublishResponse::Qos1(p)) => format!("ok:puback:{}:{}", p.packet_id, p.reason_code as u8),
+                            Ok(PublishResponse::Qos2(Qos2Response::Pubrec(p))) => format!("ok:pubrec:{}:{}", p.packet_id, p.reason_code as u8),
+                            Ok(PublishResponse::Qos2(Qos2Response::Pubcomp(p))) => format!("ok:pubcomp:{}:{}", p.packet_id, p.reason_code as u8),
+                            Err(e) => format!("err:{}", error_kind(&e)),
+                        };
+                        sink.lock().unwrap().push((id, text));
+                        Ok(())
+                    });
+                    UserEvent::Publish(Box::new(packet), PublishOptionsInternal { options: PublishOptions { ack_timeout }, response_handler: Some(handler) })
+                }
+                MqttPacket::Subscribe(_) => {
+                    let handler: ResponseHandler<SubscribeResult> = Box::new(move |result| {
+                        let text = match result {
+                            Ok(p) => format!("ok:suback:{}:{}", p.packet_id, codes_to_text(&p.reason_codes, |c| c as u8)),
+                            Err(e) => format!("err:{}", error_kind(&e)),
+                        };
+                        sink.lock().unwrap().push((id, text));
+                        Ok(())
+                    });
+                    let mut options = SubscribeOptions::default();
+                    options.ack_timeout = ack_timeout;
+                    UserEvent::Subscribe(Box::new(packet), SubscribeOptionsInternal { options, response_handler: Some(handler) })
+                }
+                MqttPacket::Unsubscribe(_) => {
+                    let handler: ResponseHandler<UnsubscribeResult> = Box::new(move |result| {
+                        let text = match result {
+                            Ok(p) => format!("ok:unsuback:{}:{}", p.packet_id, codes_to_text(&p.reason_codes, |c| c as u8)),
+                            Err(e) => format!("err:{}", error_kind(&e)),
+                        };
+                        sink.lock().unwrap().push((id, text));
+                        Ok(())
+                    });
+                    let mut options = UnsubscribeOptions::default();
+                    options.ack_timeout = ack_timeout;
+                    UserEvent::Unsubscribe(Box::new(packet), UnsubscribeOptionsInternal { options, response_handler: Some(handler) })
+                }
+                MqttPacket::Disconnect(_) => { UserEvent::Disconnect(Box::new(packet)) }
+                _ => { return Err("submit: unsupported packet kind".to_string()); }
+            };
+
+        let state = &mut self.state;
+        let result = catch_unwind(AssertUnwindSafe(|| {
+            state.handle_user_event(UserEventContext { event, current_time });
+            Ok(())
+        }));
+
+        Ok(self.finish(outcome_of(result), format!(" id={}", id)))
+    }
+
+    fn network_event(&mut self, now: u64, event: NetworkEvent) -> String {
+        let mut packet_events = VecDeque::new();
+        let current_time = self.at(now);
+        let state = &mut self.state;
+        let result = catch_unwind(AssertUnwindSafe(|| {
+            let mut context = NetworkEventContext { event, current_time, packet_events: &mut packet_events };
+            state.handle_network_event(&mut context)
+        }));
+        let events = Self::events_to_text(&packet_events);
+        self.finish(outcome_of(result), format!(" ev={}", events))
+    }
+
+    pub fn opened(&mut self, now: u64, deadline: u64) -> String {
+        let establishment_timeout = self.at(deadline);
+        self.network_event(now, NetworkEvent::ConnectionOpened(ConnectionOpenedContext { establishment_timeout }))
+    }
+
+    pub fn closed(&mut self, now: u64) -> String {
+        self.network_event(now, NetworkEvent::ConnectionClosed)
+    }
+
+    pub fn incoming(&mut self, now: u64, data: &[u8]) -> String {
+        self.network_event(now, NetworkEvent::IncomingData(data))
+    }
+
+    pub fn write_completion(&mut self, now: u64) -> String {
+        self.network_event(now, NetworkEvent::WriteCompletion)
+    }
+
+    /// Calls service with a buffer of the given capacity holding `prefill` bytes already.
+    pub fn service(&mut self, now: u64, capacity: usize, prefill: usize) -> String {
+        let mut buffer: Vec<u8> = Vec::with_capacity(capacity);
+        buffer.resize(prefill.min(capacity), 0);
+        let start = buffer.len();
+        let current_time = self.at(now);
+        let state = &mut self.state;
+        let result = catch_unwind(AssertUnwindSafe(|| {
+            let mut context = ServiceContext { to_socket: &mut buffer, current_time };
+            state.service(&mut context)
+        }));
+        let out = if buffer.len() >= start { hex(&buffer[start..]) } else { "x".to_string() };
+        self.finish(outcome_of(result), format!(" out={}", out))
+    }
+
+    pub fn next_service_time(&mut self, now: u64) -> String {
+        let current_time = self.at(now);
+        let base = self.base;
+        let state = &mut self.state;
+        let result = catch_unwind(AssertUnwindSafe(|| {
+            state.get_next_service_timepoint(&current_time)
+        }));
+        match result {
+            Ok(Some(t)) => { let ms = (t - base).as_millis(); self.finish("ok".to_string(), format!(" nst={}", ms)) }
+            Ok(None) => self.finish("ok".to_string(), " nst=never".to_string()),
+            Err(payload) => self.finish(format!("panic:{}", panic_message(payload)), " nst=never".to_string()),
+        }
+    }
+
+    pub fn reset(&mut self, now: u64) -> String {
+        let current_time = self.at(now);
+        let state = &mut self.state;
+        let result = catch_unwind(AssertUnwindSafe(|| {
+            state.reset(&current_time);
+            Ok(())
+        }));
+        self.finish(outcome_of(result), String::new())
+    }
+
+    pub fn set_next_packet_id(&mut self, value: u16) {
+        self.state.next_packet_id = value;
+    }
+
+    pub fn settings(&self) -> String {
+        match &self.state.current_settings {
+            None => "settings=-".to_string(),
+            Some(s) => format!("settings={}:{}:{}:{}:{}:{}:{}:{}:{}:{}:{}:{}",
+                s.maximum_qos as u8, s.session_expiry_interval, s.receive_maximum_from_server, s.maximum_packet_size_to_server,
+                s.topic_alias_maximum_to_server, s.server_keep_alive, s.retain_available as u8, s.wildcard_subscriptions_available as u8,
+                s.subscription_identifiers_available as u8, s.shared_subscriptions_available as u8, s.rejoined_session as u8, hex(s.client_id.as_bytes()))
+        }
+    }
+
+    fn ms(&self, t: &Option<Instant>) -> String {
+        match t { None => "-".to_string(), Some(t) => (*t - self.base).as_millis().to_string() }
+    }
+
+    /// Canonical snapshot of the engine's bookkeeping (hash containers sorted by key).
+    pub fn snapshot(&self) -> String {
+        let s = &self.state;
+        let list = |q: &VecDeque<u64>| -> String { format!("[{}]", q.iter().map(|i| i.to_string()).collect::<Vec<String>>().join(",")) };
+        let map = |m: &std::collections::HashMap<u16, u64>| -> String {
+            let mut v: Vec<(u16, u64)> = m.iter().map(|(k, v)| (*k, *v)).collect();
+            v.sort();
+            format!("[{}]", v.iter().map(|(k, v)| format!("{}:{}", k, v)).collect::<Vec<String>>().join(","))
+        };
+        let mut op_ids: Vec<u64> = s.operations.keys().copied().collect();
+        op_ids.sort();
+        let ops: Vec<String> = op_ids.iter().map(|id| {
+            let op = s.operations.get(id).unwrap();
+            let (kind, dup) = match &*op.packet {
+                MqttPacket::Publish(p) => (format!("pub{}", p.qos as u8), p.duplicate),
+                MqttPacket::Subscribe(_) => ("sub".to_string(), false),
+                MqttPacket::Unsubscribe(_) => ("unsub".to_string(), false),
+                MqttPacket::Connect(_) => ("connect".to_string(), false),
+                MqttPacket::Disconnect(_) => ("disconnect".to_string(), false),
+                MqttPacket::Pingreq(_) => ("pingreq".to_string(), false),
+                MqttPacket::Puback(_) => ("puback".to_string(), false),
+                MqttPacket::Pubrec(_) => ("pubrec".to_string(), false),
+                MqttPacket::Pubcomp(_) => ("pubcomp".to_string(), false),
+                _ => ("other".to_string(), false),
+            };
+            format!("{}:{}:{}:{}:{}:{}:{}", id, kind, op.verif_packet_id().map(|p| p.to_string()).unwrap_or("-".to_string()),
+                dup as u8, op.qos2_pubrel.is_some() as u8, op.slow_start_ack_value, op.interruption_count)
+        }).collect();
+        let mut q2: Vec<u16> = s.qos2_incomplete_incoming_publishes.iter().copied().collect();
+        q2.sort();
+        let mut timeouts: Vec<(u128, u64)> = s.verif_ack_timeouts().iter().map(|(id, t)| ((*t - self.base).as_millis(), *id)).collect();
+        timeouts.sort();
+        format!("snap pwc={} ops=[{}] uq={} rq={} hq={} cur={} q2in=[{}] alloc={} ppub={} pnon={} pwco={} tmo=[{}] nextid={} nextpid={} cb={} nping={} pingto={} connackto={} ss={}",
+            s.pending_write_completion as u8, ops.join(","), list(&s.user_operation_queue), list(&s.resubmit_operation_queue),
+            list(&s.high_priority_operation_queue), s.current_operation.map(|i| i.to_string()).unwrap_or("-".to_string()),
+            q2.iter().map(|i| i.to_string()).collect::<Vec<String>>().join(","), map(&s.allocated_packet_ids), map(&s.pending_publish_operations),
+            map(&s.pending_non_publish_operations), list(&s.pending_write_completion_operations),
+            timeouts.iter().map(|(t, id)| format!("{}:{}", id, t)).collect::<Vec<String>>().join(","),
+            s.next_operation_id, s.next_packet_id, s.has_connected_successfully as u8,
+            self.ms(&s.next_ping_timepoint), self.ms(&s.ping_timeout_timepoint), self.ms(&s.connack_timeout_timepoint), s.slow_start_ack_count)
+    }
+}
